@@ -52,8 +52,11 @@ def fock_ok(spec):
     return peak <= 3 and not any(o["cls"] in ("ThermalLossChannel", "PassiveChannel", "Gaussian") for o in spec["ops"])
 
 
-def fock_delta(sf, spec, refm, cutoff, pure, cache=None):
-    st, _ = sim.run_spec(sf, spec, "fock", cutoff_dim=cutoff, pure=pure, op_cache=cache)
+def fock_delta(sf, spec, refm, cutoff, pure, cache=None, sel=None):
+    if sel is None:
+        st, _ = sim.run_spec(sf, spec, "fock", cutoff_dim=cutoff, pure=pure, op_cache=cache)
+    else:
+        st, _ = sim.run_spec(sf, spec, "fock", cutoff_dim=cutoff, pure=pure, op_cache=cache, modes=sel)
     a, N, M, tr = sim.moments_fock(st)
     return sim.moment_dist(refm, (a, N, M)), 1 - tr
 
@@ -76,12 +79,26 @@ def _check_program(ctx, sf, spec, fock=True, cutoff=9):
     rp = dict(kind="program", spec=spec, hbar=sf.hbar)
     # half of the runs share Operation instances between equal operations (and across the back ends of this program)
     cache = {} if ctx.oracle_cases % 2 == 0 else None
+    # a third of the runs request a subset of the modes in an arbitrary (also cyclic) order: run option `modes=[...]`
+    sel = None
+    if ctx.oracle_cases % 3 == 1 and len(ref.active) >= 2:
+        k = ctx.rng.randint(2, len(ref.active))
+        sel = ctx.rng.sample(ref.active, k)
+        refm = sim.restrict_moments(ref.alpha_N_M(), sel)
+        rp["modes"] = sel
+        ctx.tally("state-modes:%s" % ("ascending" if sel == sorted(sel) else "unsorted"))
     ctx.oracle_cases += 1
     results = {}
     for be in ("gaussian", "bosonic"):
         try:
-            st, _ = sim.run_spec(sf, spec, be, op_cache=cache)
+            if sel is None:
+                st, _ = sim.run_spec(sf, spec, be, op_cache=cache)
+            else:   # the bosonic back end documents that it returns the requested modes in ascending order
+                st, _ = sim.run_spec(sf, spec, be, op_cache=cache, modes=sel if be == "gaussian" else sorted(sel))
             m = sim.moments_gaussian(st, sf.hbar) if be == "gaussian" else sim.moments_bosonic(st, sf.hbar)
+            if sel is not None and be == "bosonic":
+                pos = [sorted(sel).index(x) for x in sel]
+                m = sim.restrict_moments(m, pos)
         except Exception as e:  # noqa: BLE001
             if type(e).__name__ in ("CircuitError", "NotImplementedError"):
                 ctx.tally(f"not-accepted:{be}")       # the property speaks about programs a back end accepts
@@ -101,14 +118,14 @@ def _check_program(ctx, sf, spec, fock=True, cutoff=9):
     if fock and fock_ok(spec):
         for pure in (True, False):
             try:
-                d, loss = fock_delta(sf, spec, refm, cutoff, pure, cache)
+                d, loss = fock_delta(sf, spec, refm, cutoff, pure, cache, sel)
             except Exception as e:  # noqa: BLE001
                 ctx.fail(f"fock-raises:{type(e).__name__}", f"fock back end (pure={pure}) raised {type(e).__name__}: {e}", rp)
                 continue
             ctx.tally("fock-runs")
             if d > 5 * cutoff * loss + 1e-6:
                 ctx.tally("fock-escalations")
-                d2, loss2 = fock_delta(sf, spec, refm, cutoff + 6, pure)
+                d2, loss2 = fock_delta(sf, spec, refm, cutoff + 6, pure, None, sel)
                 if d2 > max(1e-5, d / 2) and d2 > 5 * (cutoff + 6) * loss2 + 1e-6:
                     ctx.fail(f"fock-{'pure' if pure else 'mixed'}-vs-reference:{culprit(sf, spec, 'fock', pure)}",
                              f"fock back end (pure={pure}) differs from the phase-space calculation by {d:.3g} at cutoff "
@@ -290,6 +307,6 @@ def replay(ctx, rp):
     elif rp.get("kind") == "bosonic-vs-fock":
         check_bosonic_vs_fock(ctx, sf, rp["spec"])
     else:
-        check_program(ctx, sf, rp["spec"])
+        check_program(ctx, sf, rp["spec"])      # (a `modes` selection is re-drawn from the same PRNG state)
     sf.hbar = 2
     return len(ctx.failures) > n0
